@@ -63,10 +63,11 @@ PROGRAMS = [
     ('<xsl:output method="xml" omit-xml-declaration="yes" indent="yes"/>'
      '<xsl:template match="/"><out><xsl:element name="el"><xsl:attribute name="a">1</xsl:attribute>{FAIL}<xsl:apply-templates/></xsl:element></out></xsl:template>'
      '<xsl:template match="*"><n name="{name()}"><xsl:apply-templates/></n></xsl:template>'),
-    # 6: failure while a GLOBAL variable is being evaluated (its guard / context must not survive the failure)
+    # 6: failure while a GLOBAL variable is being evaluated (its guard / context must not survive the failure); it depends on the
+    #    parameter p, so that the SAME compiled stylesheet can fail first and succeed later
     ('<xsl:param name="p" select="\'g\'"/><xsl:output method="xml" omit-xml-declaration="yes"/>'
-     '<xsl:variable name="g1"><g p="{$p}"><xsl:for-each select="//*"><xsl:if test="position() = 2">{FAIL}</xsl:if><i n="{name()}"/></xsl:for-each></g></xsl:variable>'
-     '<xsl:variable name="g2" select="count(//*) + string-length($g1)"/>'
+     '<xsl:variable name="g2" select="count(//*) + string-length($g1)"/>'   # refers to g1, which is declared later: g1 is evaluated on first reference (lazily)
+     '<xsl:variable name="g1"><g p="{$p}"><xsl:for-each select="//*"><xsl:if test="position() = 2 and $p = \'s\'">{FAIL}</xsl:if><i n="{name()}"/></xsl:for-each></g></xsl:variable>'
      '<xsl:template match="/"><out g2="{$g2}"><xsl:copy-of select="$g1"/><xsl:apply-templates select="*"/></out></xsl:template>'
      '<xsl:template match="*"><e><xsl:value-of select="$g2"/></e></xsl:template>'),
     # 7: failure inside the content of xsl:attribute / xsl:comment / xsl:processing-instruction (only text nodes may be created there),
@@ -106,6 +107,28 @@ def histories(draw):
     ops = []
     compiled = {}
     parsed = {}
+    if draw(st.sampled_from([0, 0, 0, 1])):
+        # skeleton: the SAME compiled stylesheet (and parsed source) is run before, while and after a parameter makes it fail
+        # (programs 6 and 7 fail depending on p; the others fail or not whatever the parameter is), then the random walk goes on
+        compiled['S0'] = 0
+        ops.append({'op': 'compile', 'name': 'S0', 'xsl': 0})
+        if draw(st.booleans()):
+            parsed['P0'] = 0
+            ops.append({'op': 'parse', 'name': 'P0', 'xml': 0, 'form': draw(st.sampled_from(['native', 'xerces']))})
+
+        def run():
+            t = {'op': 'transform', 'compiled': 'S0'}
+            if 'P0' in parsed:
+                t['parsed'] = 'P0'
+            else:
+                t['xml'] = 0
+            return t
+        ops.append(run())
+        ops.append({'op': 'param', 'name': 'p', 'kind': draw(st.sampled_from(['expr', 'cexpr'])), 'value': "'s'"})
+        ops.append(run())
+        ops.append(draw(st.sampled_from([{'op': 'clearparams'}, {'op': 'param', 'name': 'p', 'kind': 'expr', 'value': '7'}])))
+        ops.append(run())
+        ops.append({'op': 'transform', 'xsl': 0, 'xml': 0})
     for _ in range(draw(st.integers(3, 12))):
         k = draw(st.integers(0, 19))
         if k <= 7:
